@@ -593,7 +593,11 @@ class Engine:
         cenv = Env(env, None)
         for _ in self.exec_block(s.body, cenv, mod, cls):
             raise Unsupported('yield in class body')
-        cls.ns = cenv.vars
+        cls.ns = {}
+        for k, v in cenv.vars.items():
+            if k.startswith('__') and not k.endswith('__'):
+                k = '_' + s.name.lstrip('_') + k
+            cls.ns[k] = v
         for k, v in cls.ns.items():
             if isinstance(v, FuncVal):
                 v.qualname = cls.qualname + '.' + v.name
@@ -1661,7 +1665,9 @@ class Engine:
         if any(_deep_sym(a) for a in args) or any(
                 _deep_sym(a) for a in kwargs.values()):
             if not getattr(fn, '_pyvc_symbolic_ok', False) and \
-                    not _container_method(fn):
+                    not _container_method(fn) and not str(
+                        getattr(fn, '__module__', '')).startswith(
+                            ('contracts', 'pyvc', 'harness')):
                 raise Unsupported(
                     f'native call {getattr(fn, "__qualname__", fn)!r} with '
                     'symbolic argument')
